@@ -97,7 +97,7 @@ def run_case(args):
     prev_kind = R.choice(['absent', 'shorter', 'equal', 'longer', 'longer'])
     files = {'f1': data}
     bad = []
-    form = R.choice(['w', 'w', 'range', 'range', 'own', 'wq', 'print', 'read-mid', 'vi-w', 'vi-ZZ', 'xa', 'aw-q', 'reread'])
+    form = R.choice(['w', 'w', 'range', 'range', 'own', 'wq', 'print', 'read-mid', 'vi-w', 'vi-ZZ', 'xa', 'aw-q', 'reread', 'fifo'])
     if form.startswith('vi'):
         try:
             data.decode('utf-8')
@@ -158,6 +158,10 @@ def run_case(args):
         exp_out = (b'X\n' if edit else b'') + expected(lines)
         script = (b'1i\nX\n.\n' if edit else b'') + b'e! f2\n' + (b'xa\n' if form == 'xa' else b'se aw\nq\n')
         exp_second = ('f2', expected(l2))
+    elif form == 'fifo':
+        # the file arrives in pieces (a named pipe fed in bursts): read() returns less than a full chunk long before the end
+        exp_out = expected(lines)
+        script = b'w! out\n'
     elif form == 'reread':
         # the file changes on disk (any size, also empty) and is read again into the same, non-empty buffer
         d2, _ = make_content(rng('c01', idx, 'second'))
@@ -188,7 +192,28 @@ def run_case(args):
                 keys = b'xu:w\n'
         r, d = common.run_vi(vi, keys, files=files, timeout=90)
     else:
-        r, d = common.run_ex(vi, script, files=files, timeout=90, envx=envx)
+        if form == 'fifo':
+            import threading, time as _t
+            d0 = common.case_dir('e')
+            os.mkfifo(os.path.join(d0, 'ff'))
+            cuts = sorted(R.sample(range(1, max(2, len(data))), min(3, max(0, len(data) - 1)))) if len(data) > 1 else []
+
+            def feed():
+                try:
+                    with open(os.path.join(d0, 'ff'), 'wb', buffering=0) as f:
+                        prev = 0
+                        for c in cuts + [len(data)]:
+                            f.write(data[prev:c])
+                            prev = c
+                            _t.sleep(0.15)
+                except OSError:
+                    pass
+            th = threading.Thread(target=feed, daemon=True)
+            th.start()
+            r, d = common.run_ex(vi, script, files={}, timeout=90, cwd=d0, args=['ff'])
+            th.join(2)
+        else:
+            r, d = common.run_ex(vi, script, files=files, timeout=90, envx=envx)
     got = common.readf(d, target)
     got2 = common.readf(d, exp_second[0]) if exp_second else None
     common.rmcase(d)
@@ -241,7 +266,7 @@ def run(tier, V):
             V.violation(key, what, wit)
     cov = {'evaluations': n, 'distinct_nontrivial': n - forms.get('x', 0), 'forms': forms, 'content_kinds': kinds,
            'rule': ('%d cases: contents over bytes 1..255 (ASCII / UTF-8 / arbitrary bytes) with directed boundaries (line lengths around 128, 1024, 2048, 4096, 8192; running sums crossing the 4096-byte write '
-                    'batch at -1/0/+1; file sizes around k*1024 and 128*2^k; line counts 0,1,2,511..513,1023..1025,2049; with/without final newline) x operation (w!, a,bw!, w own path, wq, %%p, r in the middle + w, vi :w, vi x-u-:w, :xa and autowrite-at-quit of a buffer that is not the current one, :e! after the file changed on disk) '
+                    'batch at -1/0/+1; file sizes around k*1024 and 128*2^k; line counts 0,1,2,511..513,1023..1025,2049; with/without final newline) x operation (w!, a,bw!, w own path, wq, %%p, r in the middle + w, vi :w, vi x-u-:w, :xa and autowrite-at-quit of a buffer that is not the current one, :e! after the file changed on disk, a file read from a named pipe fed in bursts) '
                     'x previous target (absent/shorter/equal/longer) x (15%%) one write() cut short by the kernel.  expected bytes computed from the input alone.  every case is distinct (seeded) and non-trivial (a file is written or printed and compared).' % n),
            'samples': [{'desc': r[3], 'form': r[4]} for r in res[:5]]}
     assumptions = ['NUL bytes are excluded (the statement says NUL-free)', 'vi-mode forms are used with valid UTF-8 contents only',
